@@ -17,7 +17,11 @@
   * Get Channel Auth Cap asks for the configured privilege level; Get Session Challenge names
     an authentication type the BMC offered and the configured user name, zero padded to 16
   * Activate Session: header carries the challenge's authentication type and the temporary
-    session id, a valid authentication code; data echoes authentication type, configured
+    session id, the NULL session sequence number (no session is active yet: its numbers are created by
+    this very exchange - the console proposes the outbound start value in the request data, the BMC assigns
+    the inbound one in the response - and 0000_0000h is the value of packets outside an active session,
+    v1.5 Table 12-8 / v2.0 Table 13-8 "Session Seq#"; a number left over from an EARLIER session of the
+    same console is flagged `activate-seq-not-null`), a valid authentication code; data echoes authentication type, configured
     privilege level, the challenge string given, and a non-zero initial outbound sequence number
   * afterwards every datagram carries the granted session id, that authentication type, a valid
     authentication code, and a session sequence number that starts within 8 counts of the
@@ -64,7 +68,7 @@ inductive Phase where
 inductive Why where
   | malformedRmcp | notPing | malformedSession | lengthByte | malformedIpmi | notForBmc
   | order | outsideSession | privilege | authNotOffered | userName
-  | activateAuth | activateSid | authCode | activateData | challengeEcho | outboundSeqZero
+  | activateAuth | activateSid | activateSeq | authCode | activateData | challengeEcho | outboundSeqZero
   | sessionAuth | sessionId | seqWindow | seqStep | seqZero | closeSid | afterClose
   deriving Repr, DecidableEq
 
@@ -75,6 +79,7 @@ def Why.name : Why → String
   | .order => "handshake-order" | .outsideSession => "pre-session-packet-inside-session"
   | .privilege => "privilege-level" | .authNotOffered => "auth-type-not-offered"
   | .userName => "user-name" | .activateAuth => "activate-auth-type" | .activateSid => "activate-temporary-session-id"
+  | .activateSeq => "activate-seq-not-null"
   | .authCode => "auth-code" | .activateData => "activate-data" | .challengeEcho => "challenge-not-echoed"
   | .outboundSeqZero => "initial-outbound-seq-zero" | .sessionAuth => "session-auth-type"
   | .sessionId => "session-id" | .seqWindow => "seq-outside-window" | .seqStep => "seq-step"
@@ -215,6 +220,7 @@ def handle (md5 : List Nat → List Nat) (cfg : BmcCfg) (st : BmcState) (p : Lan
     if rq.netfn ≠ netfnApp ∨ rq.cmd ≠ cmdActivate then fail st .order
     else if p.auth ≠ auth then fail st .activateAuth
     else if p.sid ≠ cfg.tempSid then fail st .activateSid
+    else if p.seq ≠ 0 then fail st .activateSeq
     else if !codeOk md5 cfg.pw p then fail st .authCode
     else match rq.data with
     | a :: lvl :: rest =>
